@@ -259,7 +259,11 @@ def main():
     mroutes = Driver(EXE).run(['routes'])[0].split(' ')
     resp = app.test_client().get('/')
     body = resp.data.decode()
-    evaluations += 3
+    for k in range(3):   # the index must be the same on every later request
+        again = app.test_client().get('/').data.decode()
+        if again != body:
+            dis('index:changes-between-requests', impl=again, model=body, request=k + 2)
+    evaluations += 6
     stats.add('index:rules-in-url_map', len(all_rules))
     if resp.status_code != 200:
         dis('index:status', impl=resp.status_code, model=200)
